@@ -278,6 +278,14 @@ def correspondence(ctx):
     # sums / differences: generic pairs, near-cancelling pairs, exactly cancelling pairs
     mod = [v for v in vs4 if 1e-3 <= np.linalg.norm(v) <= 1e3]
     ad = [{**cm.d(P, mod[i]), **cm.d(Q, mod[(3 * i + 1) % len(mod)])} for i in range(len(mod))]
+    # nearly-but-not-exactly parallel operands are left out: after the two normalisations their sum / difference is pure rounding
+    # noise (exactly zero in one evaluation order, a few ulp in another), so "zero vector: raise" vs "value" is not a fact of
+    # either the model or the implementation; exactly cancelling pairs (same bits) are kept below
+    def _generic(c):
+        a = np.array([c[k] for k in P]); b = np.array([c[k] for k in Q])
+        a, b = a / np.linalg.norm(a), b / np.linalg.norm(b)
+        return min(np.linalg.norm(a - b), np.linalg.norm(a + b)) > 1e-9
+    ad = [c for c in ad if _generic(c)]
     canc = [{**cm.d(P, v), **cm.d(Q, v)} for v in mod[:6]] + [{**cm.d(P, v), **cm.d(Q, -v)} for v in mod[:6]]
     ctx.correspond('C11_add', ad + canc + zr[:2], I['add'], tol_ulp=256)
     ctx.correspond('C11_sub', ad + canc + zr[:2], I['sub'], tol_ulp=256)
